@@ -192,6 +192,7 @@ def make_config(ck, rng, nmax_sites, want_vacancy):
     if want_vacancy:
         vac = rng.randrange(n)
         sup.addvacancy(vac)
+    snap = snapshot(sup)
     # clusters
     mode = rng.random()
     desc = {}
@@ -230,7 +231,46 @@ def make_config(ck, rng, nmax_sites, want_vacancy):
         desc = dict(kind="random")
     if rng.random() < 0.5: rng.shuffle(clusters)
     return dict(label=label, crys=crys, sup=sup, S=S, spectator=spectator, vac=vac, clusters=clusters, desc=desc, n=n,
-                Nspec=Nspec * sup.size)
+                Nspec=Nspec * sup.size, snap=snap)
+
+
+def snapshot(sup):
+    """pristine deep copy of a freshly built supercell (with its crystal) + the attribute names of both objects"""
+    import copy
+    return dict(fresh=copy.deepcopy(sup), supkeys=sorted(vars(sup).keys()), cryskeys=sorted(vars(sup.crys).keys()),
+                arrays={(w, k): np.array(v, copy=True) for w, o in (("sup", sup), ("crys", sup.crys)) for k, v in vars(o).items()
+                        if isinstance(v, np.ndarray)})
+
+
+def history_check(ck, cfg, values, socc):
+    """after all evaluations: the used supercell / crystal objects carry no new attributes and unmodified arrays, and the
+    evaluators give on the used objects exactly what they give on the pristine copy"""
+    sup, snap, clusters = cfg["sup"], cfg["snap"], cfg["clusters"]
+    rep = dict(describe(cfg), values=np.asarray(values).tolist(), socc=np.asarray(socc).tolist())
+    for obj, keys, what in ((sup, snap["supercell" if False else "supkeys"], "ClusterSupercell"), (sup.crys, snap["cryskeys"], "Crystal")):
+        now = sorted(vars(obj).keys())
+        if now != keys:
+            ck.violation("the evaluators left the %s object changed: added attributes %s, removed %s"
+                         % (what, sorted(set(now) - set(keys)), sorted(set(keys) - set(now))), rep, key="c32-object-mutated")
+    for (w, k), v in snap["arrays"].items():
+        cur = getattr(sup if w == "sup" else sup.crys, k, None)
+        if cur is None or not np.array_equal(cur, v):
+            ck.violation("the evaluators modified the array attribute %s.%s" % (w, k), rep, key="c32-object-mutated"); break
+    fresh = snap["fresh"]
+    try:
+        a = sup.clusterevaluator(socc, clusters, values); b = fresh.clusterevaluator(socc, clusters, values)
+        same = (a[0] == b[0]) and np.array_equal(np.asarray(a[1]), np.asarray(b[1]))
+        ma = sup.expandcluster_matrices(socc, clusters); mb = fresh.expandcluster_matrices(socc, clusters)
+        same = same and all(len(x) == len(y) and all(np.array_equal(p_, q_) for p_, q_ in zip(x, y)) for x, y in zip(ma, mb))
+        occs = all_occupations(cfg["n"], cfg["vac"])
+        for j in sorted(set([0, len(occs) - 1, len(occs) // 3])):
+            same = same and np.array_equal(sup.evalcluster(occs[j], socc, clusters), fresh.evalcluster(occs[j], socc, clusters))
+    except Exception as e:
+        ck.violation("evaluator raised %s: %s when re-run after the other evaluations" % (type(e).__name__, e), rep, key="c32-history")
+        return
+    if not same:
+        ck.violation("an evaluator returns something else on the used supercell than on a pristine copy built the same way", rep,
+                     key="c32-history")
 
 
 def fixed_config(ck, name, S, cutoff, maxorder, spectator=(), vac=None, exclude=()):
@@ -242,6 +282,7 @@ def fixed_config(ck, name, S, cutoff, maxorder, spectator=(), vac=None, exclude=
     sup = supercell.ClusterSupercell(crys, S, spectator=list(spectator))
     n = sup.size * sup.Nmobile
     if vac is not None: sup.addvacancy(vac)
+    snap = snapshot(sup)
     ce = cluster.makeclusters(crys, cutoff, maxorder, exclude=list(exclude))
     clusters = [list(g) for g in ce]
     desc = dict(kind="self-imaged" if not exclude else "spectator-only", cutoff=cutoff, maxorder=maxorder, exclude=list(exclude))
@@ -250,7 +291,7 @@ def fixed_config(ck, name, S, cutoff, maxorder, spectator=(), vac=None, exclude=
         clusters += [list(g) for g in cluster.makeVacancyClusters(crys, ci_vac[0], ce)]
     Nspec = sum(len(crys.basis[c]) for c in spectator)
     return dict(label=name, crys=crys, sup=sup, S=S, spectator=sorted(spectator), vac=vac, clusters=clusters, desc=desc, n=n,
-                Nspec=Nspec * sup.size)
+                Nspec=Nspec * sup.size, snap=snap)
 
 
 FIXED = [("fcc", [[1, 0, 0], [0, 3, 0], [0, 0, 3]], 0.75, 3, (), None),          # FCC 1x3x3, nearest neighbours
@@ -609,6 +650,7 @@ def run(ck):
         if len(terms) < ck.n(12, 60) and len(inst) <= 1200:
             term, info = coq_case(ck, rng, cfg, br, inst)
             terms.append(term); infos.append((cfg, info, nmob))
+        history_check(ck, cfg, values, socc)
     try:
         codes = run_coq(ck, "corr", terms)
     except CoqFailure as e:
